@@ -62,7 +62,8 @@ Definition model_run (c : case) : res :=
   | OMask _ => model_mask s es
   | OMerged false d => model_merged s us d es
   | OMerged true d => model_geo_merge s d es
-  | OClip _ => RIvs (map triple (model_clip s es))
+  | OClip false => RIvs (map triple (model_clip s es))
+  | OClip true => RIvs (map triple (model_geo_clip s es))
   | OExtend _ n => RIvs (map triple (model_extend s n es))
   | OSorted false => RIvs (map triple (model_sorted es))
   | OSorted true => model_geo_sort s es
@@ -95,7 +96,10 @@ Definition spec_run (c : case) : expect :=
       if chr_start_sorted es && (0 <=? d) && (geo || forallb (entry_good s) es)
       then placed c (RIvs (map triple (spec_merged s d es)))
       else Either (RIvs (map triple (spec_merged s d es)))
-  | OClip _ => MustBe (RIvs (map triple (spec_clip s es)))
+  | OClip false => MustBe (RIvs (map triple (spec_clip s es)))
+  | OClip true =>     (* Geometry.clip also keeps an interval lying entirely outside inside [0,size] *)
+      MustBe (RIvs (map triple (map (fun e => let z := size_of s (e_chr e) in
+                                              set_se e (Z.min (Z.max 0 (e_start e)) z) (Z.max (Z.min z (e_stop e)) 0)) es)))
   | OExtend _ n => MustBe (RIvs (map triple (spec_extend s n es)))
   | OSorted false => Rel (fun r => match r with RIvs l => spec_sorted_ok true (map triple es) l | _ => false end)
   | OSorted true =>
